@@ -25,9 +25,9 @@ from vf.oracle import dyn, kin
 from vf.runner import Violation
 
 EPS = np.finfo(np.float64).eps
-K_V = 2e3          # velocity update, scale cond(Mhat)*(|v| + h|a|)     (worst observed ~10 eps*cond)
-K_Q = 256          # position update given the velocity (quaternion exp), scale (1+|q|)
-K_ACT = 64         # activation update
+K_V = 50           # velocity update, scale cond(Mhat)*(|v| + h|a|)     (worst observed ~0.4 eps*cond)
+K_Q = 64           # position update given the velocity (quaternion exp), scale (1+|q|)  (worst observed ~0.6 eps)
+K_ACT = 16         # activation update (observed: bit-exact)
 COND_MAX = 1e8
 INTEGRATORS = ('Euler', 'RK4', 'implicit', 'implicitfast')
 
@@ -41,9 +41,14 @@ def model_strategy(draw, quick):
       fl[f] = 'disable'
   fl['contact'] = 'disable'
   h = draw(mg.num(0.0005, 0.02, 4))
-  opt = '<option timestep="%s" integrator="%s"><flag%s/></option>' % (mg.fmt(h), integ, ''.join(' %s="%s"' % kv for kv in fl.items()))
+  medium = ''
+  if draw(st.integers(0, 3)) == 0:
+    medium = ' density="%s" viscosity="%s"' % (mg.fmt(draw(mg.num(0, 1000, 0))), mg.fmt(draw(mg.num(0, 1, 3))))
+  opt = '<option timestep="%s" integrator="%s"%s><flag%s/></option>' % (mg.fmt(h), integ, medium, ''.join(' %s="%s"' % kv for kv in fl.items()))
   gm = draw(gs.smooth_models(max_bodies=4 if quick else 8, max_joints=2, tendons=True, actuators=True, opt=opt,
                              stateful_actuators=True, joint_kwargs=dict(frictionloss=False)))
+  if medium:
+    gm.info['labels'] = sorted(set(gm.info['labels']) | {'fluid'})
   gm.info['integrator'] = integ
   gm.info['flags'] = fl
   return gm
@@ -65,7 +70,7 @@ def main(ck):
   stats = dict(implicitfast_sym=0, implicitfast_lower=0, implicitfast_both=0)
 
   def track(name, r):
-    if r > worst.get(name, 0):
+    if r > worst.get(name, -1):
       worst[name] = float(r)
 
   def ratio(a, b, scale, tol):
@@ -150,15 +155,14 @@ def main(ck):
     if nv == 0:
       ck.discard('nv=0')
       return
-    integ = gm.info['integrator']
-    fl = gm.info['flags']
+    integ, fl = gs.opt_info(lib, m)
     h = float(m.opt.timestep)
     d0 = lib.make_data(m)
     mg.apply_state(lib, m, d0, seed, vel_scale=3.0, pos_scale=0.8)
     d0.time = float(seed % 997) * 0.125
     t0 = float(d0.time)
     S = kin.snap(m)
-    labels = list(gm.labels()) + gs.classify(lib, m) + ['int:' + integ] + ['flag:%s-off' % f for f in fl if fl[f] == 'disable' and f != 'contact']
+    labels = gs.brief(gm.labels(), ('damping:', 'act:')) + gs.classify(lib, m) + ['int:' + integ] + ['flag:%s-off' % f for f in fl if fl[f] == 'disable' and f != 'contact']
 
     # ---- engine: one step on a twin
     d1 = lib.copy_data(m, d0)
@@ -335,6 +339,8 @@ def main(ck):
   ck.extra['tolerances'] = dict(K_V=K_V, K_Q=K_Q, K_ACT=K_ACT, COND_MAX=COND_MAX)
   ck.extra.update(stats)
 
+
+replay = gs.make_replay(main)
 
 LEVEL = 'exploration'
 TECHNIQUE = ('property-based testing against a numpy re-implementation of the documented integrator update rules '
